@@ -348,13 +348,13 @@ theorem lmp_read_write_roundtrip (atoms : List Atom) (b : List (List Num))
   refine ⟨readFrame_single atoms b hn hat hb, sortAtoms_perm atoms, sortAtoms_sorted atoms, fun hs => ?_⟩
   rw [readFrame_single atoms b hn hat hb, sortAtoms_of_sorted atoms hs]
 
-private def exA (i t : Int) (x v : String) : Atom :=
+def exA (i t : Int) (x v : String) : Atom :=
   ⟨i, t, [⟨false, x⟩, ⟨true, "0.5"⟩, ⟨false, "2.25"⟩], [⟨true, v⟩, ⟨false, "0.0"⟩, ⟨true, "0.0"⟩]⟩
-private def exBox : List (List Num) :=
+def exBox : List (List Num) :=
   [[⟨false, "0.0"⟩, ⟨false, "10.0"⟩], [⟨true, "1.0"⟩, ⟨false, "11.0"⟩], [⟨false, "2.5"⟩, ⟨false, "12.0"⟩]]
-private def exAtoms : List Atom := [exA 3 1 "1.5" "0.25", exA 1 2 "2.5" "0.75", exA 2 1 "3.5" "1e-05"]
+def exAtoms : List Atom := [exA 3 1 "1.5" "0.25", exA 1 2 "2.5" "0.75", exA 2 1 "3.5" "1e-05"]
 
-example : 2 ≤ exAtoms.length ∧ AtomsOK exAtoms ∧ BoxOK exBox ∧ DistinctIds exAtoms := by
+theorem exAtoms_ok : 2 ≤ exAtoms.length ∧ AtomsOK exAtoms ∧ BoxOK exBox ∧ DistinctIds exAtoms := by
   refine ⟨by decide, ?_, ⟨by decide, ?_⟩, ?_⟩
   · intro a ha; simp [exAtoms] at ha; rcases ha with rfl | rfl | rfl <;> exact ⟨rfl, rfl⟩
   · intro r hr; simp [exBox] at hr; rcases hr with rfl | rfl | rfl <;> rfl
@@ -856,13 +856,13 @@ theorem trr_decode_endian_agree (w : Nat) (f : LFrame) (h : LOK w f) (r₁ r₂ 
   ⟨_, _, _, trr_decode_endian_precision .big w f h r₁, trr_decode_endian_precision .little w f h r₂,
     rfl, rfl, rfl, rfl, rfl, rfl⟩
 
-private def exF : LFrame :=
+def exF : LFrame :=
   { irSize := 0, eSize := 0, topSize := 0, symSize := 0, step := -7, nre := 3, natoms := 1,
     time := [0x3f, 0x80, 0, 0], lambda := [0, 0, 0, 0],
     box := some (List.replicate 9 [0x41, 0x20, 0, 1]), vir := none, pres := some (List.replicate 9 [1, 2, 3, 4]),
     x := some [[0x40, 0, 0, 0], [0xc0, 0, 0, 1], [0, 0, 0, 2]], v := none, f := none }
 
-private theorem exF_ok : LOK 4 exF :=
+theorem exF_ok : LOK 4 exF :=
   { hwidth := Or.inl rfl, hints := by simp [InRange, exF], hnatoms := by decide, htime := rfl, hlambda := rfl,
     hbox := ⟨rfl, by decide⟩, hvir := trivial, hpres := ⟨rfl, by decide⟩,
     hx := ⟨rfl, by decide, by decide⟩, hv := trivial, hf := trivial, hsome := Or.inl (by simp [exF]) }
